@@ -29,7 +29,7 @@ def generate(tier, seed):
             n = rnd.choice([5, 20, 60])
             steps = []
             for _ in range(n):
-                steps += [rnd.choice(al), "?ga:p", "?ga:g", "?rv"]
+                steps += [pick_op(rnd, al, dom), "?ga:p", "?ga:g", "?rv"]
             script = "".join(rnd.choice("pppppprf") for _ in range(rnd.randint(0, 10)))
             ad = adapter_M(initial_lines(rnd, dom, True))
             if rnd.random() < 0.4:
